@@ -51,8 +51,17 @@ def main():
         out = col.result()
         out["ok"] = True
     except BaseException as e:  # harness error
-        out["ok"] = False
-        out["error"] = "".join(traceback.format_exception(type(e), e, e.__traceback__))[-6000:]
+        tb = "".join(traceback.format_exception(type(e), e, e.__traceback__))[-6000:]
+        col_ = locals().get("col")
+        if col_ is not None and getattr(col_, "failures", None):
+            # an oracle already reported a violation in this job; a later section of the job then tripped over the same broken behaviour
+            # (an observation it takes for granted): the violation stands, the follow-up error is kept as a note
+            col_.notes.append("job ended early after a recorded violation: " + tb[-600:])
+            out = col_.result()
+            out["ok"] = True
+        else:
+            out["ok"] = False
+            out["error"] = tb
     out["wall_s"] = time.time() - t0
     with open(outfile, "w") as f:
         json.dump(out, f, default=repr)
